@@ -82,7 +82,9 @@ def generate(seed, tier, index):
         t = rng.randrange(1, int(4.0 / GRID)) * GRID
         if t not in bad:
             late_def = {"t": t, "state": rng.choice(STATES), "e1": rng.choice(["v0", "MATCH", "u0a"]), "e2": rng.choice(["v0", "MATCH", "u0b"])}
-    return {"mode": mode, "waits": waits, "events": evs, "late_def": late_def, "tie_shuffle": rng.random() < 0.5, "seed": rng.randrange(1 << 30),
+    # the awaited value may be falsy (an empty text): only expressible with message objects, i.e. for an in-process client
+    falsy = mode == "direct" and rng.random() < 0.2
+    return {"mode": mode, "waits": waits, "events": evs, "late_def": late_def, "falsy": falsy, "tie_shuffle": rng.random() < 0.5, "seed": rng.randrange(1 << 30),
             "frag": rng.choice(["coalesce", "whole", "fixed:7"])}
 
 
@@ -104,6 +106,7 @@ def _timeline(scen):
     val = {"E1": "v0", "E2": "v0"}
     state = "Idle"
     out = []
+    MV = "" if scen.get("falsy") else "MATCH"
     ld = scen.get("late_def")
     events = list(scen["events"])
     if ld:
@@ -116,7 +119,7 @@ def _timeline(scen):
     for e in events:
         derived = []
         if e["kind"] == "value":
-            new = "MATCH" if e["match"] else f"u{e['n']}"
+            new = MV if e["match"] else f"u{e['n']}"
             if val[e["el"]] == new:
                 new = f"u{e['n']}"  # a repeated MATCH would not be a change: make it a unique non-match instead
             xml = f'<setTextVector device="D" name="V" state="{state}"><oneText name="{e["el"]}">{new}</oneText></setTextVector>\n'
@@ -140,7 +143,7 @@ def _matches(w, ev):
     if kind == "value" and w["filter_el"] and el != w["el"]:
         return False
     if w["ck"] == "expect":
-        return new == ("MATCH" if kind == "value" else "Alert")
+        return new == (w.get("_mv", "MATCH") if kind == "value" else "Alert")
     if w["ck"] == "initial":
         return new != ("v0" if kind == "value" else "Idle")
     return str(new).startswith("u") and kind == "value" or (kind == "state" and new in ("Busy", "Alert"))
@@ -158,9 +161,18 @@ def execute(scen):
                 sim.do(client.process_message, IndiMessage.from_string(DEF))
             # same-instant messages are dispatched as one batch, in timeline order (like several messages in one read):
             # they carry absolute states, so permuting them would change what they mean
+            def to_obj(xml):
+                msg = IndiMessage.from_string(xml)
+                if scen.get("falsy"):
+                    # the parser turns an empty text into None; an in-process peer hands over the empty string itself
+                    for ch in getattr(msg, "children", None) or ():
+                        if ch.value is None:
+                            ch.value = ""
+                return msg
+
             batches = {}
             for t, xml, _ in tl:
-                batches.setdefault(t, []).append(IndiMessage.from_string(xml))
+                batches.setdefault(t, []).append(to_obj(xml))
 
             def deliver(msgs):
                 for mm in msgs:
@@ -204,7 +216,7 @@ def execute(scen):
             if w["ek"] == "value" and w["filter_el"]:
                 kw["element"] = w["el"]
             if w["ck"] == "expect":
-                kw["expect"] = "MATCH" if w["ek"] == "value" else "Alert"
+                kw["expect"] = ("" if scen.get("falsy") else "MATCH") if w["ek"] == "value" else "Alert"
             elif w["ck"] == "initial":
                 kw["initial"] = "v0" if w["ek"] == "value" else "Idle"
             else:
@@ -238,6 +250,7 @@ def execute(scen):
         # dispatch order of derived events at equal instants follows the timeline order (same connection / FIFO timers unless shuffled)
         shuffled = False
         for i, w in enumerate(scen["waits"]):
+            w["_mv"] = "" if scen.get("falsy") else "MATCH"
             rec = results.get(i, {"done": None})
             s, T = w["start"], w["timeout"]
             cands = []
